@@ -346,3 +346,299 @@ def describe(ctx, sym, upto=8):
         if ne:
             out.append("%s[%d]!=%s" % (sym.name, p, '/'.join(repr(chr(x)) if x else "'\\0'" for x in ne)))
     return ', '.join(out)
+
+
+# ------------------------------------------------------------------------------------ scoped name tables (parse.c) ---
+# A scope table is a HashMap member of a Scope record.  Which scope a table expression `&X->vars` belongs to is decided from
+# what X can be: the global scope pointer itself (the innermost scope), something reached through ->next or through a walking
+# local (possibly an enclosing scope), or a parameter (decided at the call sites).
+TABLE_FNS = {'hashmap_put': 'put', 'hashmap_put2': 'put', 'hashmap_get': 'get', 'hashmap_get2': 'get',
+             'hashmap_delete': 'delete', 'hashmap_delete2': 'delete'}
+WRITE_THROUGH_LIBC = ('memcpy', 'memmove', 'memset', 'strcpy', 'strncpy')
+
+
+def _tname(t):
+    return (t or '').replace('struct ', '').replace('const ', '').replace(' ', '')
+
+
+class ScopeTables:
+    def __init__(self, u, rec='Scope'):
+        self.u = u
+        self.rec = rec
+        self.ptr = rec + '*'
+        self.fns = u.functions
+        self.gids = {g.id: name for name, g in u.globals.items()}
+        self._defs = {}       # fn -> {decl id: [rhs nodes]}
+        self._params = {}     # fn -> [decl ids]
+        self._decl = {}       # fn -> {decl id: decl node}
+        self._scope_memo = {}
+        for f, fd in self.fns.items():
+            self._index(f, fd)
+        self.lookup_kind = {}     # fn -> scope class of the binding it returns (only for functions returning a table lookup)
+        self._returns = self._return_summaries()
+        self.writes_param = self._write_summaries()
+
+    # ---- per-function def tables
+    def _index(self, f, fd):
+        defs, decl = {}, {}
+        params = [p.id for p in fd.inner if p.kind == 'ParmVarDecl']
+        for p in fd.inner:
+            if p.kind == 'ParmVarDecl':
+                decl[p.id] = p
+        for n in fd.walk():
+            if n.kind == 'VarDecl':
+                decl[n.id] = n
+                init = [x for x in n.inner if x.kind not in ('FullComment',) and not x.kind.endswith('Attr')]
+                defs.setdefault(n.id, [])
+                if init:
+                    defs[n.id].append(init[-1])
+            elif n.kind == 'BinaryOperator' and n.opcode == '=':
+                l = n.inner[0].strip()
+                if l.kind == 'DeclRefExpr' and l.ref_kind in ('VarDecl', 'ParmVarDecl'):
+                    defs.setdefault(l.ref_id, []).append(n.inner[1])
+            elif n.kind in ('CompoundAssignOperator',) or (n.kind == 'UnaryOperator' and n.opcode in ('++', '--')):
+                l = n.inner[0].strip()
+                if l.kind == 'DeclRefExpr' and l.ref_kind in ('VarDecl', 'ParmVarDecl'):
+                    defs.setdefault(l.ref_id, []).append(None)          # changed in a way not followed
+            elif n.kind == 'UnaryOperator' and n.opcode == '&':
+                l = n.inner[0].strip()
+                if l.kind == 'DeclRefExpr' and l.ref_kind in ('VarDecl', 'ParmVarDecl') and l.ref_id in decl or \
+                        (l.kind == 'DeclRefExpr' and l.ref_kind in ('VarDecl', 'ParmVarDecl') and l.ref_id not in self.gids):
+                    defs.setdefault(l.ref_id, []).append(None)          # address taken: may be written elsewhere
+        self._defs[f], self._params[f], self._decl[f] = defs, params, decl
+
+    def is_local(self, f, n):
+        return n.kind == 'DeclRefExpr' and n.ref_kind in ('VarDecl', 'ParmVarDecl') and n.ref_id not in self.gids
+
+    # ---- which scope does a `Scope *` expression denote
+    def scope_of(self, f, e, depth=0):
+        """'inner' (the current scope: the global scope pointer) | 'outer' (may be an enclosing scope) | ('param', i) | 'unknown'"""
+        e = e.strip_all()
+        if depth > 6:
+            return 'unknown'
+        if e.kind == 'DeclRefExpr':
+            if e.ref_kind == 'VarDecl' and e.ref_id in self.gids:
+                return 'inner' if _tname(e.dtype) == self.ptr else 'unknown'
+            if e.ref_kind == 'ParmVarDecl':
+                i = self._params[f].index(e.ref_id) if e.ref_id in self._params[f] else None
+                if i is None:
+                    return 'unknown'
+                if self._defs[f].get(e.ref_id):
+                    ks = {self.scope_of_def(f, d, depth + 1) for d in self._defs[f][e.ref_id]}
+                    return 'outer' if 'outer' in ks else 'unknown'
+                return ('param', i)
+            if e.ref_kind == 'VarDecl':
+                key = (f, e.ref_id)
+                if key in self._scope_memo:
+                    return self._scope_memo[key]
+                self._scope_memo[key] = 'unknown'       # cycles: sc = sc->next is 'outer' through the member rule below
+                ds = self._defs[f].get(e.ref_id, [])
+                ks = {self.scope_of_def(f, d, depth + 1) for d in ds} if ds else {'unknown'}
+                if 'outer' in ks:
+                    r = 'outer'
+                elif ks == {'inner'}:
+                    r = 'inner'
+                else:
+                    r = 'unknown'
+                self._scope_memo[key] = r
+                return r
+            return 'unknown'
+        if e.kind == 'MemberExpr' and _tname(e.dtype) == self.ptr:
+            return 'outer'                  # a link out of some scope (->next): an enclosing scope
+        if e.kind == 'ConditionalOperator':
+            ks = {self.scope_of(f, x, depth + 1) for x in e.inner[1:]}
+            return 'outer' if 'outer' in ks else (ks.pop() if len(ks) == 1 else 'unknown')
+        return 'unknown'
+
+    def scope_of_def(self, f, d, depth):
+        return 'unknown' if d is None else self.scope_of(f, d, depth)
+
+    # ---- table calls
+    def table_of(self, call):
+        """(field, base expression) if the first argument of a hashmap_* call is `&<Scope *>->field`"""
+        a = call.args()
+        if not a:
+            return None
+        t = a[0].strip_all()
+        if t.kind == 'UnaryOperator' and t.opcode == '&':
+            m = t.inner[0].strip()
+            if m.kind == 'MemberExpr' and m.inner and _tname(m.inner[0].strip().dtype if m.d.get('isArrow') else None) == self.ptr:
+                return m.name, m.inner[0]
+        return None
+
+    def table_calls(self, f, op):
+        out = []
+        for c in self.fns[f].calls(tuple(k for k, v in TABLE_FNS.items() if v == op)):
+            t = self.table_of(c)
+            if t is not None:
+                out.append((c, t[0], self.scope_of(f, t[1])))
+        return out
+
+    # ---- functions that hand back a binding they looked up
+    def _value_class(self, f, e, depth=0):
+        """scope class of the binding a pointer expression holds, None if it is not (directly) the answer of a table lookup"""
+        e = e.strip_all()
+        if depth > 6:
+            return None
+        if e.kind == 'CallExpr':
+            cal = e.callee()
+            if TABLE_FNS.get(cal) == 'get':
+                t = self.table_of(e)
+                return (self.scope_of(f, t[1]), t[0], cal) if t else None
+            if cal in self.lookup_kind:
+                k, field, src = self.lookup_kind[cal]
+                if isinstance(k, tuple):
+                    args = e.args()
+                    k = self.scope_of(f, args[k[1]]) if k[1] < len(args) else 'unknown'
+                return (k, field, cal)
+            return None
+        if self.is_local(f, e) and e.ref_kind == 'VarDecl':
+            got = None
+            for d in self._defs[f].get(e.ref_id, []):
+                if d is None:
+                    continue
+                v = self._value_class(f, d, depth + 1)
+                if v is None:
+                    continue
+                if got is None or v[0] == 'outer' or (got[0] == 'inner' and v[0] != 'inner'):
+                    got = v
+            return got
+        if e.kind == 'ConditionalOperator':
+            vs = [self._value_class(f, x, depth + 1) for x in e.inner[1:]]
+            vs = [v for v in vs if v]
+            for v in vs:
+                if v[0] == 'outer':
+                    return v
+            return vs[0] if vs else None
+        return None
+
+    def _return_summaries(self):
+        """pure lookup functions: every return statement hands back the answer of a scope-table lookup (or a null pointer).  A function that
+        also returns other objects (a parser that answers either an existing or a new type) is not one: what its callers do with the result
+        says nothing about bindings"""
+        changed = True
+        rounds = 0
+        while changed and rounds < 6:
+            changed = False
+            rounds += 1
+            for f, fd in self.fns.items():
+                if not (fd.type or '').split('(')[0].strip().endswith('*'):
+                    continue
+                best = None
+                pure = True
+                for r in fd.find('ReturnStmt'):
+                    if not r.inner:
+                        continue
+                    x = r.inner[0].strip_all()
+                    if x.int_value() == 0 or x.kind == 'GNUNullExpr':
+                        continue
+                    v = self._value_class(f, x)
+                    if v is None:
+                        pure = False
+                        break
+                    if best is None or v[0] == 'outer' or (best[0] == 'inner' and v[0] != 'inner'):
+                        best = v
+                if pure and best is not None and self.lookup_kind.get(f) != best:
+                    self.lookup_kind[f] = best
+                    changed = True
+        return self.lookup_kind
+
+    # ---- stores through a pointer variable
+    def _stores_through(self, f, ids, summaries):
+        """[(decl id, how, node)] for every store the function makes through one of the pointer variables `ids`"""
+        out = []
+        fd = self.fns[f]
+
+        def var_of(x):
+            x = x.strip_all()
+            return x.ref_id if self.is_local(f, x) and x.ref_id in ids else None
+
+        def target(l):
+            """the variable a store to lvalue l goes through, and what is written"""
+            l = l.strip()
+            what = None
+            while True:
+                if l.kind == 'UnaryOperator' and l.opcode == '*':
+                    v = var_of(l.inner[0])
+                    return (v, what or 'whole-object') if v is not None else None
+                if l.kind == 'MemberExpr':
+                    if l.d.get('isArrow'):
+                        v = var_of(l.inner[0])
+                        return (v, 'field-' + (l.name or '?')) if v is not None else None
+                    what = what or ('field-' + (l.name or '?'))
+                    l = l.inner[0].strip()
+                    continue
+                if l.kind == 'ArraySubscriptExpr':
+                    v = var_of(l.inner[0])
+                    if v is not None:
+                        return v, what or 'element'
+                    l = l.inner[0].strip()
+                    if l.kind not in ('MemberExpr', 'UnaryOperator', 'ArraySubscriptExpr'):
+                        return None
+                    continue
+                return None
+        for n in fd.walk():
+            t = None
+            if n.kind in ('BinaryOperator', 'CompoundAssignOperator') and (n.opcode == '=' or n.kind == 'CompoundAssignOperator'):
+                t = target(n.inner[0])
+            elif n.kind == 'UnaryOperator' and n.opcode in ('++', '--'):
+                t = target(n.inner[0])
+            elif n.kind == 'CallExpr':
+                cal = n.callee()
+                args = n.args()
+                if cal in WRITE_THROUGH_LIBC and args:
+                    v = var_of(args[0])
+                    if v is not None:
+                        t = (v, 'by-' + cal)
+                elif cal in summaries:
+                    for i in summaries[cal]:
+                        if i < len(args):
+                            v = var_of(args[i])
+                            if v is not None:
+                                out.append((v, 'by-%s' % cal, n))
+            if t:
+                out.append((t[0], t[1], n))
+        return out
+
+    def _write_summaries(self):
+        """fn -> set of parameter indices the function (transitively) stores through"""
+        W = {f: set() for f in self.fns}
+        changed = True
+        rounds = 0
+        while changed and rounds < 8:
+            changed = False
+            rounds += 1
+            for f in self.fns:
+                ps = self._params[f]
+                if not ps:
+                    continue
+                for (v, how, n) in self._stores_through(f, set(ps), W):
+                    i = ps.index(v)
+                    if i not in W[f]:
+                        W[f].add(i); changed = True
+        return {f: s for f, s in W.items() if s}
+
+    def bindings(self, f):
+        """{decl id: (scope class, field, source name)} for the locals of f that hold the answer of a scope-table lookup"""
+        out = {}
+        for vid, ds in self._defs[f].items():
+            if vid in self._params[f] or vid not in self._decl[f]:
+                continue
+            n = self._decl[f][vid]
+            if not (n.type or '').strip().endswith('*'):
+                continue
+            ref = None
+            for d in ds:
+                if d is None:
+                    continue
+                v = self._value_class(f, d)
+                if v is None:
+                    continue
+                if ref is None or v[0] == 'outer' or (ref[0] == 'inner' and v[0] != 'inner'):
+                    ref = v
+            if ref is not None:
+                out[vid] = ref
+        return out
+
+    def stores_through(self, f, ids):
+        return self._stores_through(f, set(ids), self.writes_param)
